@@ -39,7 +39,8 @@ RULE = ("call histories drawn from a grammar: Integrate(k) with k in 0..remainin
         "columns in a permuted order (half of those with an unrelated extra column), ~40 % of the histories supply all or a "
         "random subset of their pvas as int64 Series of whole numbers, half spell with_altitude as numpy.bool_ or int "
         "(labels and values define the meaning: the model is unchanged); the time axis is float seconds, float seconds + 1e9, "
-        "int64 ms, int64 ns ~1.7e18 or int32 ticks (index values and dtype compared exactly); increments with both branches of "
+        "int64 ms, int64 ns ~1.7e18 or int32 ticks (index values and dtype compared exactly); groups of 2-3 histories are also "
+        "run on objects alive at once, constructed first and advanced alternately; increments with both branches of "
         "mat_from_rotvec; thorough adds every history of <= 5 ops over {I0,I1,I2,I3,Pnext,Pforeign,S} at "
         "capacity 2 (2D) and 3 (3D), <= 4 ops for the other two mode/capacity pairs.  A case is distinct by (mode, capacity, op sequence); non-trivial if it "
         "integrates at least one increment")
@@ -245,12 +246,23 @@ def hist_key(h):
 # the real class, instrumented
 
 @contextlib.contextmanager
-def instrumented(cap, log):
-    """INITIAL_SIZE := cap; the compiled kernel is called through a guard that refuses any call that
-    would read or write outside the buffers (the compiled code would silently corrupt memory) and that
-    fills the rows the call is about to overwrite with NaN (they are dead: the model replaces them)."""
+def initial_size(cap):
+    """Integrator.INITIAL_SIZE := cap (read by the constructor only)"""
     from pyins import strapdown
     old_size = strapdown.Integrator.INITIAL_SIZE
+    strapdown.Integrator.INITIAL_SIZE = cap
+    try:
+        yield
+    finally:
+        strapdown.Integrator.INITIAL_SIZE = old_size
+
+
+@contextlib.contextmanager
+def guarded_kernel(log):
+    """the compiled kernel is called through a guard that refuses any call that would read or write outside
+    the buffers (the compiled code would silently corrupt memory) and that fills the rows the call is about
+    to overwrite with NaN (they are dead: the model replaces them)."""
+    from pyins import strapdown
     old_k = strapdown.integrate
 
     def guarded(dt, lla, vel, mat, theta, dv, offset, with_altitude):
@@ -266,78 +278,195 @@ def instrumented(cap, log):
                 a[offset + 1: offset + 1 + n] = np.nan if a.dtype.kind == 'f' else -(2 ** 40)
         return old_k(dt, lla, vel, mat, theta, dv, offset, with_altitude)
 
-    strapdown.Integrator.INITIAL_SIZE = cap
     strapdown.integrate = guarded
     try:
         yield
     finally:
-        strapdown.Integrator.INITIAL_SIZE = old_size
         strapdown.integrate = old_k
+
+
+@contextlib.contextmanager
+def instrumented(cap, log):
+    with initial_size(cap), guarded_kernel(log):
+        yield
 
 
 def _row(series):
     return (_py(series.name), np.array(series.values, dtype=float))
 
 
+def _real_steps(h, d, deep, out):
+    """the history on the real class as a coroutine: yields after the constructor and after every operation
+    (so that several objects can be advanced alternately); fills `out`"""
+    from pyins import strapdown
+    with initial_size(h['cap']):
+        it = strapdown.Integrator(pva_series(d, 0, d['t0']), with_altitude=alt_value(h))
+    yield 'constructed'
+    cursor = 0
+    for o in h['ops']:
+        if o[0] == 'I':
+            ids = list(range(cursor, cursor + o[1]))
+            cursor += o[1]
+            before = (_py(it.trajectory.index[-1]), it.trajectory.values[-1].copy(),
+                      len(it.trajectory))
+            ret = it.integrate(inc_frame(d, ids))
+            out['obs'].append(('F', [_py(x) for x in ret.index], np.array(ret.values, dtype=float),
+                               str(ret.index.dtype)))
+            out['extra'].append(dict(before=before, after_len=len(it.trajectory),
+                                     tail=it.trajectory.values[-(len(ids) + 1):].copy(),
+                                     labels=[_py(lab(d, d['labels'][i])) for i in ids]))
+        elif o[0] == 'P':
+            ex = {}
+            if deep:
+                clone = copy.deepcopy(it)
+                tb = (it.trajectory.values.tobytes(), list(it.trajectory.index))
+                nd = len(it.trajectory)
+                pref = (it.lla[:nd].tobytes(), it.velocity_n[:nd].tobytes(), it.mat_nb[:nd].tobytes())
+            ret = it.predict(inc_series(d, o[1]))
+            out['obs'].append(('R',) + _row(ret))
+            if deep:
+                ex['unchanged'] = (tb == (it.trajectory.values.tobytes(), list(it.trajectory.index)) and
+                                   pref == (it.lla[:nd].tobytes(), it.velocity_n[:nd].tobytes(),
+                                            it.mat_nb[:nd].tobytes()))
+                clone.integrate(inc_frame(d, [o[1]]))
+                ex['next_row'] = _row(clone.trajectory.iloc[-1])
+                ex['clone_len'] = (nd, len(clone.trajectory))
+            out['extra'].append(ex)
+        elif o[0] == 'G':
+            out['obs'].append(('R',) + _row(it.get_pva()))
+            out['extra'].append(dict(last=_row(it.trajectory.iloc[-1])))
+        elif o[0] == 'T':
+            out['obs'].append(('T', _py(it.get_time())))
+            out['extra'].append(dict(last=_py(it.trajectory.index[-1])))
+        elif o[0] == 'S':
+            ret = it.set_pva(pva_series(d, o[1], -7))
+            out['obs'].append(('U', ret))
+            out['extra'].append({})
+        else:
+            raise ValueError(o)
+        yield o[0]
+    out.update(index=[_py(x) for x in it.trajectory.index], index_dtype=str(it.trajectory.index.dtype),
+               values=np.array(it.trajectory.values, dtype=float),
+               columns=list(it.trajectory.columns),
+               cap=len(it.lla), caps=(len(it.lla), len(it.velocity_n), len(it.mat_nb)),
+               lla=it.lla.copy(), vel=it.velocity_n.copy(), mat=it.mat_nb.copy(),
+               with_altitude=bool(it.with_altitude))
+
+
 def run_real(h, d, deep=True):
     """Run the history on the real class.  Returns dict(ok, ...)."""
-    from pyins import strapdown
     log = []
     out = dict(ok=True, obs=[], extra=[], klog=log)
     try:
-        with instrumented(h['cap'], log):
-            it = strapdown.Integrator(pva_series(d, 0, d['t0']), with_altitude=alt_value(h))
-            cursor = 0
-            for o in h['ops']:
-                if o[0] == 'I':
-                    ids = list(range(cursor, cursor + o[1]))
-                    cursor += o[1]
-                    before = (_py(it.trajectory.index[-1]), it.trajectory.values[-1].copy(),
-                              len(it.trajectory))
-                    ret = it.integrate(inc_frame(d, ids))
-                    out['obs'].append(('F', [_py(x) for x in ret.index], np.array(ret.values, dtype=float),
-                                       str(ret.index.dtype)))
-                    out['extra'].append(dict(before=before, after_len=len(it.trajectory),
-                                             tail=it.trajectory.values[-(len(ids) + 1):].copy(),
-                                             labels=[_py(lab(d, d['labels'][i])) for i in ids]))
-                elif o[0] == 'P':
-                    ex = {}
-                    if deep:
-                        clone = copy.deepcopy(it)
-                        tb = (it.trajectory.values.tobytes(), list(it.trajectory.index))
-                        nd = len(it.trajectory)
-                        pref = (it.lla[:nd].tobytes(), it.velocity_n[:nd].tobytes(), it.mat_nb[:nd].tobytes())
-                    ret = it.predict(inc_series(d, o[1]))
-                    out['obs'].append(('R',) + _row(ret))
-                    if deep:
-                        ex['unchanged'] = (tb == (it.trajectory.values.tobytes(), list(it.trajectory.index)) and
-                                           pref == (it.lla[:nd].tobytes(), it.velocity_n[:nd].tobytes(),
-                                                    it.mat_nb[:nd].tobytes()))
-                        clone.integrate(inc_frame(d, [o[1]]))
-                        ex['next_row'] = _row(clone.trajectory.iloc[-1])
-                        ex['clone_len'] = (nd, len(clone.trajectory))
-                    out['extra'].append(ex)
-                elif o[0] == 'G':
-                    out['obs'].append(('R',) + _row(it.get_pva()))
-                    out['extra'].append(dict(last=_row(it.trajectory.iloc[-1])))
-                elif o[0] == 'T':
-                    out['obs'].append(('T', _py(it.get_time())))
-                    out['extra'].append(dict(last=_py(it.trajectory.index[-1])))
-                elif o[0] == 'S':
-                    ret = it.set_pva(pva_series(d, o[1], -7))
-                    out['obs'].append(('U', ret))
-                    out['extra'].append({})
-                else:
-                    raise ValueError(o)
-            out.update(index=[_py(x) for x in it.trajectory.index], index_dtype=str(it.trajectory.index.dtype),
-                       values=np.array(it.trajectory.values, dtype=float),
-                       columns=list(it.trajectory.columns),
-                       cap=len(it.lla), caps=(len(it.lla), len(it.velocity_n), len(it.mat_nb)),
-                       lla=it.lla.copy(), vel=it.velocity_n.copy(), mat=it.mat_nb.copy(),
-                       with_altitude=bool(it.with_altitude))
+        with guarded_kernel(log):
+            for _ in _real_steps(h, d, deep, out):
+                pass
     except Exception as e:                                      # any legal history must run
         out.update(ok=False, error=f"{type(e).__name__}: {e}", tb=traceback.format_exc()[-1500:])
     return out
+
+
+def run_together(hs):
+    """several Integrator objects alive at once: all constructed first, then advanced alternately, one
+    operation each in turn.  Returns the per-object results (same format as run_real)."""
+    log = []
+    outs = [dict(ok=True, obs=[], extra=[], klog=log) for _ in hs]
+    with guarded_kernel(log):
+        gens = [_real_steps(h, make_data(h), False, out) for h, out in zip(hs, outs)]
+        alive = list(range(len(hs)))
+        while alive:
+            for i in list(alive):
+                try:
+                    next(gens[i])
+                except StopIteration:
+                    alive.remove(i)
+                except Exception as e:
+                    outs[i].update(ok=False, error=f"{type(e).__name__}: {e}", tb=traceback.format_exc()[-1500:])
+                    alive.remove(i)
+    return outs
+
+
+def together_failures(hs):
+    """each of several objects advanced alternately must behave bit-identically to the same history run
+    alone (the trajectory depends only on ITS supplied states and increments)"""
+    hs = [normalise(h) for h in hs]
+    together = run_together(hs)
+    fails = []
+    same = lambda a, b: np.asarray(a, dtype=float).tobytes() == np.asarray(b, dtype=float).tobytes()
+    for i, (h, t) in enumerate(zip(hs, together)):
+        a = run_real(h, make_data(h), deep=False)
+        who = f"object {i} of {len(hs)} advanced alternately"
+        if not a['ok']:
+            continue                                            # reported by the single-object checks
+        if not t['ok']:
+            fails.append(f"{who} raised {t['error']} although the same history runs alone")
+            continue
+        if t['index'] != a['index'] or t['index_dtype'] != a['index_dtype']:
+            fails.append(f"{who}: time index {t['index']} differs from the same history run alone {a['index']}")
+        elif not same(t['values'], a['values']):
+            bad = [k for k in range(len(a['index'])) if not same(t['values'][k], a['values'][k])]
+            fails.append(f"{who}: trajectory rows {bad} differ from the same history run alone (row {bad[0]}: "
+                         f"{t['values'][bad[0]].tolist()} vs alone {a['values'][bad[0]].tolist()})")
+        for j, (x, y) in enumerate(zip(t['obs'], a['obs'])):
+            ok = x[0] == y[0] and x[1] == y[1] and (x[0] not in ('F', 'R') or same(x[2], y[2]))
+            if not ok:
+                fails.append(f"{who}: result of op {j} {h['ops'][j]} differs from the same history run alone")
+                break
+    return fails
+
+
+def shrink_together(hs, budget=150):
+    pred = lambda g: len(g) >= 2 and bool(together_failures(g))
+    hs = [normalise(h) for h in hs]
+    changed = True
+    while changed and budget > 0:
+        changed = False
+        for i in range(len(hs)):
+            if len(hs) > 2:
+                c = hs[:i] + hs[i + 1:]
+                budget -= 1
+                if pred(c):
+                    hs, changed = c, True
+                    break
+        if changed:
+            continue
+        for i, h in enumerate(hs):
+            for j in range(len(h['ops'])):
+                c = copy.deepcopy(hs)
+                del c[i]['ops'][j]
+                budget -= 1
+                if pred(c):
+                    hs, changed = [normalise(x) for x in c], True
+                    break
+            if changed or budget <= 0:
+                break
+    for i in range(len(hs)):
+        for key in ('cols', 'ipva', 'flag', 'tax'):
+            if hs[i].get(key):
+                c = copy.deepcopy(hs)
+                c[i][key] = 0
+                if pred(c):
+                    hs = c
+    return hs
+
+
+def check_together(r, hists, ngroups, rng):
+    """groups of 2-3 of the generated histories, objects alive at once"""
+    nviol = 0
+    pool = [h for h in hists if any(o[0] == 'I' and o[1] > 0 for o in h['ops'])]
+    for g in range(ngroups):
+        k = 2 + (g % 2)
+        group = [pool[(3 * g + j) % len(pool)] for j in range(k)] if g < len(pool) // 3 else rng.sample(pool, k)
+        f = together_failures(group)
+        r.case(('together',) + tuple(hist_key(h) for h in group),
+               sample=dict(kind='together', histories=group) if g == 0 else None)
+        if f and nviol < 2:
+            nviol += 1
+            small = shrink_together(group)
+            ff = together_failures(small) or f
+            r.violation("Integrator objects alive at once influence each other: " + ff[0],
+                        dict(key='c02-together', histories=small, failures=ff))
+    return nviol
 
 
 # ---------------------------------------------------------------------------
@@ -1252,8 +1381,12 @@ def check(r):
     else:
         with cv:                           # quick tier: the whole batch runs in this process
             problems, results = run_batch(r, hists, 'c02', workers)
+    with cv:
+        ntog = 40 if quick else 1500
+        check_together(r, hists, ntog, rng)
     cv.finish(r)
     r.coverage['distribution'] = distribution(results)
+    r.coverage['distribution']['groups of 2-3 objects alive at once, advanced alternately'] = ntog
     printed_model_sample(r, results, 10 if quick else 40)
     if not quick:
         ex_total = 0
@@ -1289,9 +1422,29 @@ def falsify(r):
                 return
     for b in kernel_isolation(r, rng, 300)[:2]:
         r.violation("compiled kernel: " + b['what'], dict(key='c02-kernel', **b))
+    check_together(r, corpus() + [gen_history(rng) for _ in range(300)], 150, rng)
 
 
 def replay(obj):
+    rep = obj.get('replay', obj)
+    if 'histories' in rep:
+        hs = [normalise(h) for h in rep['histories']]
+        for i, h in enumerate(hs):
+            print(f"object {i}:", json.dumps(h))
+        for i, (t, h) in enumerate(zip(run_together(hs), hs)):
+            a = run_real(h, make_data(h), deep=False)
+            print(f"object {i} advanced alternately:", t.get('index'), "ok" if t['ok'] else t.get('error'))
+            if t['ok'] and a['ok']:
+                print(pd.DataFrame(t['values'], index=t['index']).to_string(header=False))
+                print(" alone:")
+                print(pd.DataFrame(a['values'], index=a['index']).to_string(header=False))
+        f = together_failures(hs)
+        print("property statement on the implementation:", f or "holds")
+        return 1 if f else 0
+    return _replay_single(obj)
+
+
+def _replay_single(obj):
     rep = obj.get('replay', obj)
     if 'history' not in rep:
         print("kernel-level replay:", rep)
